@@ -16,3 +16,31 @@ def pmap(fn, items, nproc=None):
         return [fn(x) for x in items]
     with mp.get_context("fork").Pool(min(nproc, len(items))) as pool:
         return pool.map(fn, items, chunksize=1)
+
+
+import threading
+
+_flush_lock = threading.Lock()
+
+
+class Batcher:
+    """sink for tlc.run: collects the values printed under one tag and hands them on in batches while TLC is still running,
+    so that a long emission never has to be held in memory as a whole"""
+    def __init__(self, tag, size, fn):
+        self.tag, self.size, self.fn = tag, size, fn
+        self.buf, self.n, self.other = [], 0, []
+
+    def __call__(self, tag, vals):
+        if tag != self.tag:
+            self.other.append((tag, vals))
+            return
+        self.buf.append(vals[0])
+        self.n += 1
+        if len(self.buf) >= self.size:
+            self.flush()
+
+    def flush(self):
+        if self.buf:
+            b, self.buf = self.buf, []
+            with _flush_lock:
+                self.fn(b)
